@@ -54,30 +54,63 @@ func runC33(c *Ctx) {
 		return
 	}
 	key := ssaFuncKey(fn)
-	// locate the lookup and the version atom
+	// locate the lookup and the version atom; either may live in an unexported helper called once from the rule
+	isLookup := func(ci ssa.CallInstruction) bool {
+		return ci.Common().IsInvoke() && ci.Common().Method.Name() == "DRepDelegation"
+	}
+	isVer := func(ci ssa.CallInstruction) bool {
+		cc := ci.Common()
+		return (cc.IsInvoke() && cc.Method.Name() == "ProtocolMajorVersion") || (cc.StaticCallee() != nil && cc.StaticCallee().Name() == "ProtocolMajorVersion")
+	}
+	// soleSite: the one call of helper h, made directly from fn
+	soleSite := func(h *ssa.Function) *ssa.Call {
+		cs := callersInPkg(h)
+		if len(cs) != 1 || cs[0].Parent() != fn {
+			return nil
+		}
+		cl, _ := cs[0].(*ssa.Call)
+		return cl
+	}
+	fnL := fn // the function holding the lookup
 	var lookup *ssa.Call
 	for _, ci := range allCalls(fn) {
-		if ci.Common().IsInvoke() && ci.Common().Method.Name() == "DRepDelegation" {
+		if isLookup(ci) {
 			lookup, _ = ci.(*ssa.Call)
 		}
 	}
-	if lookup == nil {
-		if h := movedInto(fn, func(ci ssa.CallInstruction) bool {
-			return ci.Common().IsInvoke() && ci.Common().Method.Name() == "DRepDelegation"
-		}); h != nil {
-			c.Undecided("%s: the DRep-delegation lookup lives in helper %s; the gate rules are intraprocedural and were not re-derived for this shape", key, h.Name())
+	var site ssa.Instruction // where the lookup happens, seen from the rule
+	if lookup != nil {
+		site = lookup
+	} else {
+		h := movedInto(fn, isLookup)
+		if h == nil {
+			c.Bad("pv-gate", key, fn.Pos(), "the rule never asks the ledger state for a DRep delegation")
+			return
 		}
-		c.Bad("pv-gate", key, fn.Pos(), "the rule never asks the ledger state for a DRep delegation")
+		cl := soleSite(h)
+		if cl == nil || h.Parent() != nil || errorResultIndex(h) != 0 || h.Signature.Results().Len() != 1 {
+			c.Undecided("%s: the DRep-delegation lookup lives in helper %s, which is not a once-called error-returning function of the rule; the gate rules were not re-derived for this shape", key, h.Name())
+			return
+		}
+		for _, ci := range allCalls(h) {
+			if isLookup(ci) {
+				lookup, _ = ci.(*ssa.Call)
+			}
+		}
+		fnL, site = h, cl
+	}
+	if lookup == nil {
+		c.Undecided("%s: the DRep-delegation lookup is not a plain call", key)
 		return
 	}
 	var verCall *ssa.Call
 	for _, ci := range allCalls(fn) {
-		cc := ci.Common()
-		if (cc.IsInvoke() && cc.Method.Name() == "ProtocolMajorVersion") || (cc.StaticCallee() != nil && cc.StaticCallee().Name() == "ProtocolMajorVersion") {
+		if isVer(ci) {
 			verCall, _ = ci.(*ssa.Call)
 		}
 	}
 	var atom string
+	fnV := fn // the function reading the version
 	if verCall != nil {
 		atom = desc(verCall)
 	} else {
@@ -89,18 +122,44 @@ func runC33(c *Ctx) {
 		}
 	}
 	if atom == "" {
-		if h := movedInto(fn, func(ci ssa.CallInstruction) bool {
-			cc := ci.Common()
-			return (cc.IsInvoke() && cc.Method.Name() == "ProtocolMajorVersion") || (cc.StaticCallee() != nil && cc.StaticCallee().Name() == "ProtocolMajorVersion")
-		}); h != nil {
-			c.Undecided("%s: the protocol version is read in helper %s; the gate rules are intraprocedural and were not re-derived for this shape", key, h.Name())
+		h := movedInto(fn, isVer)
+		if h == nil {
+			c.Bad("pv-gate", key, fn.Pos(), "the rule does not read the protocol major version")
+			return
 		}
-		c.Bad("pv-gate", key, fn.Pos(), "the rule does not read the protocol major version")
-		return
+		cl := soleSite(h)
+		if cl == nil || h.Parent() != nil {
+			c.Undecided("%s: the protocol version is read in helper %s, which is not a once-called function of the rule; the gate rules were not re-derived for this shape", key, h.Name())
+			return
+		}
+		for _, ci := range allCalls(h) {
+			if isVer(ci) {
+				verCall, _ = ci.(*ssa.Call)
+			}
+		}
+		if verCall == nil {
+			c.Undecided("%s: the version read in %s is not a plain call", key, h.Name())
+			return
+		}
+		// the helper's atom in the rule's vocabulary: its parameters stand for the arguments of the one call
+		atom = desc(verCall)
+		for i := range h.Params {
+			if i < len(cl.Call.Args) {
+				if na, ok := substToken(atom, "p"+fmt.Sprint(i), "\x00"+fmt.Sprint(i)); ok {
+					atom = na
+				}
+			}
+		}
+		for i := range h.Params {
+			if i < len(cl.Call.Args) {
+				atom = strings.ReplaceAll(atom, "\x00"+fmt.Sprint(i), desc(cl.Call.Args[i]))
+			}
+		}
+		fnV = h
 	}
 	for pv := int64(0); pv <= 20; pv++ {
 		reach := psReachVal(fn, []*ssa.BasicBlock{fn.Blocks[0]}, nil, map[string]int64{atom: pv})
-		open := reach[lookup.Block()]
+		open := reach[site.Block()]
 		want := pv == 10 || pv == 11
 		c.Check(open == want, "pv-gate", fmt.Sprintf("%s:pv=%d", key, pv), lookup.Pos(), fmt.Sprintf("delegation requirement %s", map[bool]string{true: "applies", false: "does not apply"}[want]),
 			fmt.Sprintf("at protocol major version %d the DRep-delegation requirement %s, but the ledger imposes it exactly at versions 10 and 11", pv, map[bool]string{true: "applies", false: "is skipped"}[open]))
@@ -118,7 +177,7 @@ func runC33(c *Ctx) {
 			ta, _ = recv.(*ssa.TypeAssert)
 		}
 	}
-	if ta == nil || trace(ta.X) != "p3" {
+	if ta == nil || traceIP(fn, ta.X) != "p3" {
 		c.Undecided("%s: cannot identify how the protocol version is obtained from the parameters", key)
 	} else {
 		for _, era := range eras {
@@ -137,6 +196,10 @@ func runC33(c *Ctx) {
 				succeeds = types.Identical(pt, ta.AssertedType)
 			}
 			okCover := succeeds
+			if !succeeds && ta.CommaOk && (fnV != fn || fnL != fn) {
+				c.Undecided("%s: the version is read through an assertion that fails for *%s and the rule is split over helpers; the failing side was not followed", key, tn)
+				continue
+			}
 			if !succeeds && ta.CommaOk {
 				// the failing side must not be silently accepted
 				for _, ef := range edgeFacts(fn) {
@@ -159,7 +222,7 @@ func runC33(c *Ctx) {
 	// (4) ordering and outcomes
 	{
 		// IsValid first
-		v := c.mustPass(fn, []ssa.Instruction{lookup}, func(f string) bool { return f == "T:call:ledger/common.Transaction.IsValid(p0)" })
+		v := c.mustPass(fn, []ssa.Instruction{site}, func(f string) bool { return f == "T:call:ledger/common.Transaction.IsValid(p0)" })
 		c.Check(v[0].OK, "gate-order", key+":phase-2-invalid-first", lookup.Pos(), "a phase-2-invalid transaction never reaches the gate", "the delegation requirement is applied to phase-2-invalid transactions ("+v[0].Witness+")")
 		ok := false
 		for _, ef := range edgeFacts(fn) {
@@ -171,13 +234,13 @@ func runC33(c *Ctx) {
 			}
 		}
 		c.Check(ok, "gate-order", key+":invalid-accepts", fn.Pos(), "a phase-2-invalid transaction is accepted by this rule", "a phase-2-invalid transaction is not passed through")
-		v2 := c.mustPass(fn, []ssa.Instruction{lookup}, func(f string) bool {
+		v2 := c.mustPass(fn, []ssa.Instruction{site}, func(f string) bool {
 			return strings.HasPrefix(f, "call:ledger/shelley.UtxoValidateWithdrawals(p0,p1,p2,p3) == nil")
 		})
 		c.Check(v2[0].OK, "gate-order", key+":shelley-checks-first", lookup.Pos(), "the Shelley withdrawal checks pass before the gate", "the Shelley withdrawal checks are not applied before the delegation gate ("+v2[0].Witness+")")
 	}
 	// iteration escape
-	head := loopHeadOf(lookup.Block())
+	head := loopHeadOf(site.Block())
 	if head == nil {
 		c.Bad("gate-outcomes", key+":loop", lookup.Pos(), "the delegation lookup is not inside a loop over the withdrawals")
 		return
@@ -210,28 +273,44 @@ func runC33(c *Ctx) {
 		}
 		return
 	}
-	cut := func(from *ssa.BasicBlock, succ int) bool {
-		if is, nn := delegEdge(from, succ); is && nn {
-			return true
-		}
-		for _, ef := range edgeFacts(fn) {
-			if ef.From != from || ef.Succ != succ {
-				continue
-			}
-			f := ef.Fact
-			switch {
-			case strings.HasPrefix(f, "call:math/big.(*Int).Sign(") && strings.HasSuffix(f, " == 0"): // zero amount
-				return true
-			case strings.HasPrefix(f, "next(range(") && strings.HasSuffix(f, "#2 == nil"): // nil amount
-				return true
-			case strings.HasPrefix(f, "F:call:ledger/common.(*Address).StakeCredential("): // no stake credential
+	cutIn := func(g *ssa.Function, extra func(f string) bool) func(from *ssa.BasicBlock, succ int) bool {
+		return func(from *ssa.BasicBlock, succ int) bool {
+			if is, nn := delegEdge(from, succ); is && nn {
 				return true
 			}
+			for _, ef := range edgeFacts(g) {
+				if ef.From != from || ef.Succ != succ {
+					continue
+				}
+				f := ef.Fact
+				switch {
+				case strings.HasPrefix(f, "call:math/big.(*Int).Sign(") && strings.HasSuffix(f, " == 0"): // zero amount
+					return true
+				case strings.HasPrefix(f, "next(range(") && strings.HasSuffix(f, "#2 == nil"): // nil amount
+					return true
+				case strings.HasPrefix(f, "F:call:ledger/common.(*Address).StakeCredential("): // no stake credential
+					return true
+				case extra != nil && extra(f):
+					return true
+				}
+			}
+			return false
 		}
-		return false
 	}
-	reach := psReach(fn, starts, cut)
 	bad := ""
+	var extra func(f string) bool
+	if fnL != fn {
+		// the per-withdrawal helper: it returns nil only for an account without stake credential or with a delegation
+		hr := psReach(fnL, []*ssa.BasicBlock{fnL.Blocks[0]}, cutIn(fnL, nil))
+		for _, r := range successReturns(fnL) {
+			if hr[r.Block()] {
+				bad = "the success return of " + fnL.Name()
+			}
+		}
+		callDesc := desc(site.(*ssa.Call))
+		extra = func(f string) bool { return f == callDesc+" == nil" }
+	}
+	reach := psReach(fn, starts, cutIn(fn, extra))
 	if reach[head] {
 		bad = "the next withdrawal"
 	}
@@ -259,10 +338,14 @@ func runC33(c *Ctx) {
 		}
 		return "?"
 	}
-	for _, ef := range edgeFacts(fn) {
+	outcomeEdges := edgeFacts(fn)
+	if fnL != fn {
+		outcomeEdges = append(append([]EdgeFact{}, outcomeEdges...), edgeFacts(fnL)...)
+	}
+	for _, ef := range outcomeEdges {
 		s := ef.From.Succs[ef.Succ]
 		switch {
-		case ef.Fact == "F:assert(p2,ledger/common.DRepDelegationState)#1":
+		case ef.Fact == "F:assert(p2,ledger/common.DRepDelegationState)#1" && ef.From.Parent() == fn:
 			t := retType(s)
 			c.Check(strings.HasSuffix(t, "DRepDelegationStateUnavailableError"), "gate-outcomes", key+":state-unavailable", ef.From.Instrs[len(ef.From.Instrs)-1].Pos(), "a ledger state without the capability yields the state-unavailable error", "a ledger state that cannot answer the delegation query yields "+t+" instead of DRepDelegationStateUnavailableError")
 		case func() bool { is, nn := delegEdge(ef.From, ef.Succ); return is && !nn }():
@@ -273,9 +356,9 @@ func runC33(c *Ctx) {
 	c.Floor("gate-outcomes", 3)
 	// the capability assertion is on the ledger state parameter and happens before the lookup for the first non-zero withdrawal
 	{
-		recv := trace(lookup.Call.Value)
+		recv := traceIP(fn, lookup.Call.Value)
 		c.Check(strings.Contains(recv, "assert<p2"), "gate-outcomes", key+":asks-ledger-state", lookup.Pos(), "the delegation is asked of the ledger state passed in", "the delegation is asked of "+shortArg(recv)+", not of the ledger state argument")
-		cred := trace(lookup.Call.Args[0])
+		cred := traceIP(fn, lookup.Call.Args[0])
 		c.Check(strings.HasPrefix(cred, "StakeCredential(next(range(Withdrawals(p0)))#1)#0"), "gate-outcomes", key+":credential-of-account", lookup.Pos(), "the credential looked up is the withdrawal's own reward account", "the credential looked up is "+shortArg(cred))
 	}
 }
